@@ -449,6 +449,29 @@ example : Inv exState :=
 /-- a whole two-call command on it: confined change set, one commit, user state kept -/
 example : Confined [([".xvc", "ec", "1"], some "e"), (["data", ".gitignore"], some "g")] := by
   unfold Confined; decide
+/-- a whole ordinary command (two calls) on the busy state: xvc writes two files, then nothing; one
+    commit, the second call finds nothing to do, the user's six pending changes are where they were -/
+example :
+    let o := xvcCommand isXvcPath ⟨true, true, false⟩ false "m" none exState
+      [([([".xvc", "ec", "1"], some "e"), (["data", ".gitignore"], some "g")], true), ([], true)]
+    o.status = .ok ∧ o.g.commits.length = 2 ∧ o.g.stash = exState.stash ∧ o.g.head = exState.head ∧
+    o.g.headTree.find? [".xvc", "ec", "1"] = some "e" ∧ o.g.headTree.find? ["data", ".gitignore"] = some "g" ∧
+    o.g.headTree.find? ["new.txt"] = none ∧ o.g.index.find? ["new.txt"] = some "n1" ∧
+    o.g.index.find? ["m.txt"] = some "m2" ∧ o.g.index.find? ["del.txt"] = none ∧
+    o.g.wt.find? ["t.txt"] = some "t1-edited" ∧ o.g.wt.find? ["untracked.txt"] = some "u1" := by decide
+/-- `xvc init`-like: three calls, writes before the first two -/
+example :
+    let o := xvcCommand isXvcPath ⟨true, true, false⟩ false "m" none exState
+      [([([".xvc", "a"], some "1")], true), ([([".xvc", "b"], some "2")], true), ([], true)]
+    o.status = .ok ∧ o.g.commits.length = 3 ∧ o.g.stash = exState.stash ∧
+    o.g.index.find? ["new.txt"] = some "n1" ∧ lookupRef o.g.refs "main" = some 2 ∧
+    lookupRef o.g.refs "other" = some 0 := by decide
+/-- the same command with `--skip-git`, and with `auto_stage`: no commit -/
+example :
+    (xvcCommand isXvcPath ⟨true, true, false⟩ true "m" none exState [([([".xvc", "a"], some "1")], true), ([], true)]).g.commits.length = 1 ∧
+    (xvcCommand isXvcPath ⟨true, false, true⟩ false "m" none exState [([([".xvc", "a"], some "1")], true), ([], true)]).g.commits.length = 1 ∧
+    (xvcCommand isXvcPath ⟨true, false, true⟩ false "m" none exState [([([".xvc", "a"], some "1")], true), ([], true)]).g.index.find? [".xvc", "a"] = some "1" := by
+  decide
 /-- a read-only situation (hypothesis of `C15_readonly_no_commit`): staged work, nothing pending on xvc paths -/
 def exReadonly : G := { exState with wt := [(["t.txt"], "t1-edited"), (["m.txt"], "m2"), (["new.txt"], "n1"),
   (["untracked.txt"], "u1"), ([".gitignore"], "gi0"), ([".xvc", "config.toml"], "c0")] }
